@@ -237,9 +237,11 @@ theorem joinTwoVertices_staleMapper_witness :
     joinError (joinChain triangle [(0, 1), (1, 2), (2, 0)]) = some .keyError := by decide +kernel
 
 /- PENDING (not attempted here, no theorem):
-   * `generateMesh m ne true` (the whole loop of generate_mesh with replace_short_edges): consistency of the final mesh.
-     `joinTwoVertices_consistent` covers one call; for the loop one needs `joinable` for every pair *in the mesh
-     produced by the previous calls*, which `joinTwoVertices_chain_witness` shows is not inherited (finding D17).
+   * `generateMesh m ne true` (the whole loop of generate_mesh with replace_short_edges): consistency of the final mesh
+     is now proved in Props/C11merge.lean for pairwise vertex-disjoint pairs (`joinable_preserved_of_disjoint`,
+     `joinChain_consistent_of_disjoint`, `generateMesh_true_consistent`).  Still without theorem: chains of merges
+     (pairs sharing a vertex) — there one needs `joinable` for every pair *in the mesh produced by the previous
+     calls*, which `joinTwoVertices_chain_witness` shows is not inherited (finding D17).
    * `generateMesh m ne false`: now proved in Props/C11mesh.lean (`generateMesh_false_five_clauses` for every `ne`,
      `generateMesh_false_consistent` under `1 ≤ ne`, `cellsAnchored`, `picksAgree`).
    * the skeleton clean-up operations (inner-triangle removal, T3 transition, isolated-cell removal).
